@@ -2,11 +2,13 @@
    ExtrOcamlBasic only; no Extract Constant / Extract Inductive of our own. *)
 From Coq Require Import ExtrOcamlBasic List NArith ZArith.
 From Coq.Strings Require Import Byte.
-From GM Require Import Codec.Packet Codec.Dec Codec.RefDecode.
+From GM Require Import Codec.Packet Codec.WF Codec.Dec Codec.RefDecode Codec.ReadSpec Codec.DetectEquiv.
+From GM Require Stream.Stream.
 Extraction Language OCaml.
 Separate Extraction
   Datatypes.length
   Byte.to_N Byte.of_N N.of_nat N.to_nat
   Packet.packet_eqb Packet.get_id Packet.type_code Packet.type_of_code Packet.ptype_of
   Dec.decode_go Dec.detect_go Dec.decode_header Dec.read_varint Dec.read_lp_bytes Dec.read_uint
-  RefDecode.ref_decode RefDecode.extent.
+  RefDecode.ref_decode RefDecode.extent
+  ReadSpec.read_spec DetectEquiv.abs_det Stream.detect_impl WF.wf.
